@@ -19,13 +19,19 @@ LEVEL = "exploration"
 RULE = ("(soup) a case is one generated string - 1..10 atoms drawn from operators, brackets, quotes, colons, carets, "
         "tildes, range pieces, wildcards, comparison signs, field prefixes of every field type (text, keyword, id, "
         "int/float/decimal numeric, datetime, boolean, ngram, ngramwords, stored-only, unknown, pseudo, alias), numbers, "
-        "dates, unicode and control characters, or a rendered well-formed expression damaged by character edits - parsed "
-        "and searched under every parser configuration; non-trivial when the string contains at least one syntax atom; "
-        "distinct = distinct sequence of atom classes. (language) a case is one intended tree (leaves: term, phrase "
-        "with slop, prefix, wildcard, text/numeric/date range, numeric/date/boolean term; inner: NOT, AND, OR, ANDNOT, "
-        "ANDMAYBE, REQUIRE, implicit group, parentheses, field group, boost) x one parser configuration; non-trivial "
-        "when the intended result set is neither empty nor the whole corpus; distinct = distinct (configuration, type "
-        "tree of the intended expression).")
+        "dates and date-parser phrases, unicode and control characters; or nested groups up to 60 deep (population B: "
+        "1000 deep); or a rendered well-formed expression damaged by character edits; 4% of the latin-1 strings are "
+        "passed as bytes - parsed under the 9 main shipped configurations and a random half of 12 variants "
+        "(21 in all: default, OrGroup, OrGroup.factory, Multifield x3, Simple, DisMax x2, all optional plugins, "
+        "free dates + PlusMinus + GtLt + Fuzzy + Regex, Sequence, Prefix, keep-unknown-fields, symbol operators, "
+        "Variations term class, bare, no-fields-no-operators, schema=None) and searched on two indexes; non-trivial "
+        "when the string contains at least one syntax atom; distinct = distinct sequence of atom classes. (language) a "
+        "case is one intended tree (leaves: term, single-quoted term, phrase with slop, prefix, wildcard, text/numeric/"
+        "date range, comparison, numeric/date/boolean/id term; inner: NOT, AND, OR, ANDNOT, ANDMAYBE, REQUIRE, implicit "
+        "group, parentheses, field group, field alias, boost) x one of 8 parser configurations (incl. the symbol "
+        "operators of parsing.rst) or a +/-/phrase expression for SimpleParser/DisMaxParser; a disagreement is shrunk "
+        "(sub-trees, dropped children) while it persists; non-trivial when the intended result set is neither empty nor "
+        "the whole corpus; distinct = distinct (configuration, type tree of the intended expression).")
 ASSUMPTIONS = [
     "totality searches run on a single-segment index without deletions (search(limit=None), search(limit=3)) and on a "
     "three-segment index with deleted documents (same two calls); only exception types are judged there, result sets "
